@@ -27,7 +27,7 @@ def run(pid):
       if same:
         out['other'].append([sed, 'mutation did not apply'])
         continue
-      env = dict(os.environ, VERIF_REPO=d)
+      env = dict(os.environ, VERIF_REPO=d, VERIF_EVIDENCE_DIR=os.path.join(d, 'evidence'))
       env.pop('VERIF_TIER', None)
       r = subprocess.run([os.path.join(VERIF, 'check'), pid], capture_output=True, text=True, env=env, timeout=3600)
       code = r.returncode
